@@ -54,7 +54,7 @@ class Impl:
         if isinstance(v, bool):
             return "ok other:bool"
         if isinstance(v, int):
-            return f"ok int {v}"
+            return f"ok int {v}" if abs(v) < 10 ** 400 else f"ok hugeint {v.bit_length()}bits"
         if isinstance(v, float):
             return "ok float " + fl(v)
         return "ok other:" + type(v).__name__
@@ -107,8 +107,16 @@ def reading_tok(val):
     return "F:" + dtok(d)
 
 
+def safe_str(val):
+    """str(val); an int beyond sys.get_int_max_str_digits() cannot be printed (str raises ValueError): no truth word either way"""
+    try:
+        return str(val)
+    except ValueError:
+        return "<unprintable>"
+
+
 def str_tok(val):
-    s = str(val)
+    s = safe_str(val)
     return ",".join(str(ord(ch)) for ch in s) if s else "-"
 
 
@@ -145,28 +153,69 @@ def float_of(q: Fraction) -> float:
     return q.numerator / q.denominator        # correctly rounded
 
 
+def short(x, n=70):
+    """repr that survives huge ints (repr raises beyond the int-to-str digit limit) and long strings"""
+    try:
+        r = repr(x)
+    except ValueError:
+        return f"<int of {x.bit_length()} bits>"
+    return r if len(r) <= n else r[:n - 22] + f"...({len(r)} chars)"
+
+
 def oracle(fmt, mn, mx, st, val, impl):
     """None if the implementation result satisfies the property on this case, else (slug, text)."""
     if fmt == "bool":
-        want = stepgrid.ref_bool(str(val))
+        want = stepgrid.ref_bool(safe_str(val))
         if want is None:
-            return None if impl == "err format" else ("bool:not-rejected", f"str(value) {str(val)!r} is no truth word but the result is {impl}")
+            if impl == "err format":
+                return None
+            if impl.startswith("other:"):
+                return ("bool:" + impl.split(":")[1], f"a {type(val).__name__} that is no truth word must fail with FormatError, got {impl}")
+            return ("bool:not-rejected", f"str(value) {safe_str(val)[:40]!r} is no truth word but the result is {impl}")
         return None if impl == f"ok int {want}" else ("bool:not-01", f"bool value {val!r} must give {want}, got {impl}")
-    v = stepgrid.reading(val)
-    if v is None:
+    d = stepgrid.dec_reading(val)
+    if d is None:
         if impl == "err format":
             return None
         cls = impl.split(":")[1] if impl.startswith("other:") else "accepted"
-        return ("reject:" + cls, f"{val!r} has no (finite) decimal reading and must fail with FormatError, got {impl}")
-    if impl == "err format" or impl.startswith("other:"):
-        return ("convertible-rejected:" + impl.replace(" ", "-"), f"convertible value {val!r} failed with {impl}")
+        return ("reject:" + cls, f"{short(val)} has no (finite) decimal reading and must fail with FormatError, got {impl}")
+    cls = impl.split(":")[1] if impl.startswith("other:") else "accepted"
+    if stepgrid.extreme_metadata(mn, mx, st):
+        # decimal's exponent range (Emax = 999999) can be reached: only the error class is demanded (the model says which)
+        if impl.startswith("other:"):
+            return ("extreme-metadata:" + cls, f"{fmt} min={mn!r} max={mx!r} step={st!r} value={short(val)}: raised {impl} instead of FormatError")
+        return None
+    c = stepgrid.clamp_dec(d, mn, mx)
+    if c and c.adjusted() > stepgrid.LARGEST_EXPONENT:
+        if impl == "err format":
+            return None
+        return ("huge:" + cls, f"{fmt} min={mn!r} max={mx!r} step={st!r} value={short(val)}: the clamped value is >= 1e309, beyond every "
+                               f"HomeKit number format, and must fail with FormatError; got {impl[:60]}")
+    v = Fraction(stepgrid.stand_in(c))
+    if impl.startswith("other:"):
+        return ("convertible-rejected:" + impl, f"convertible value {short(val)} failed with {impl}")
+    if impl.startswith("ok float") and impl.split(" ")[2] in ("inf", "-inf", "nan"):
+        return ("float:non-finite-result", f"{fmt} min={mn!r} max={mx!r} step={st!r} value={short(val)}: a finite input gave {impl}")
+    sp0 = stepgrid.spec(fmt, fr(mn), fr(mx), fr(st), v)
+    if fmt == "float":
+        # a result beyond the largest double cannot be handed over: FormatError (and only then)
+        if sp0["kind"] == "exact":
+            beyond, maybe = abs(sp0["value"]) >= stepgrid.FLOAT_LIMIT, False
+        else:
+            top = max(abs(sp0["off"] + k * sp0["step"]) for k in (sp0["klo"], sp0["khi"])) if sp0["kind"] == "grid" else max(abs(x) for x in sp0["candidates"])
+            beyond, maybe = False, top + sp0["tol"] >= stepgrid.FLOAT_LIMIT
+        if beyond or (maybe and impl == "err format"):
+            return None if impl == "err format" else ("float:beyond-largest-double", f"value={short(val)}: the result exceeds the largest double "
+                                                                                      f"and must fail with FormatError, got {impl}")
+    if impl == "err format":
+        return ("convertible-rejected:err-format", f"{fmt} min={mn!r} max={mx!r} step={st!r}: convertible value {short(val)} failed with {impl}")
     iv = impl_value(impl)
     if iv is None:
-        return ("wrong-type", f"result {impl} is not a number of the format")
+        return ("wrong-type", f"result {impl[:60]} is not a number of the format")
     kind, got = iv
     if (fmt == "float") != (kind == "float"):
         return ("wrong-type:" + kind, f"format {fmt} must not yield a Python {kind} ({impl})")
-    sp = stepgrid.spec(fmt, fr(mn), fr(mx), fr(st), v)
+    sp = sp0
     intcase = fmt != "float" and v.denominator == 1
     where = ("int" if intcase else "frac")
     if sp["kind"] == "exact":
@@ -178,7 +227,7 @@ def oracle(fmt, mn, mx, st, val, impl):
                 slug = where + ":not-nearest-grid-point:small-value-large-offset"
             if "hi" in sp and not (sp["lo"] <= got <= sp["hi"]):
                 slug = where + ":outside-range"
-            return (slug, f"{fmt} min={mn!r} max={mx!r} step={st!r} value={val!r}: exact arithmetic gives "
+            return (slug, f"{fmt} min={mn!r} max={mx!r} step={st!r} value={short(val)}: exact arithmetic gives "
                           f"{want if want.denominator == 1 else float_of(want)}, got {impl}")
     else:
         tol = sp["tol"] + abs(got) * Fraction(1, 2 ** 52)
@@ -188,7 +237,7 @@ def oracle(fmt, mn, mx, st, val, impl):
         else:
             cands = sp["candidates"]
         if not any(abs(got - c) <= tol for c in cands):
-            return ("frac:beyond-six-digits", f"{fmt} min={mn!r} max={mx!r} step={st!r} value={val!r}: {impl} is not within six "
+            return ("frac:beyond-six-digits", f"{fmt} min={mn!r} max={mx!r} step={st!r} value={short(val)}: {impl} is not within six "
                                               f"significant digits of a nearest grid point (nearest admissible: {float_of(cands[0])!r})")
         if "hi" in sp and not (sp["lo"] - tol <= got <= sp["hi"] + tol):
             return ("frac:outside-range", f"{impl} outside [{mn!r}, {mx!r}] although both bounds are on the grid")
@@ -198,23 +247,37 @@ def oracle(fmt, mn, mx, st, val, impl):
     return None
 
 
+def magnitude_of(fmt, val):
+    d = stepgrid.dec_reading(val)
+    if d is None or fmt == "bool":
+        return "n/a"
+    if not d:
+        return "0"
+    a = d.adjusted()
+    return ("<1e-400" if a < -400 else "<1" if a < 0 else "<1e6" if a < 6 else "<1e10" if a < 10 else "<1e20" if a < 20
+            else "<1e309" if a < 309 else "<1e5000" if a < 5000 else ">=1e5000")
+
+
 def json_case(case):
     """the case as JSON (for --replay) when every component is a JSON scalar, else None"""
-    ok = all(x is None or (isinstance(x, (int, str)) and not isinstance(x, bool)) or (isinstance(x, float) and math.isfinite(x))
-             for x in case)
+    ok = all(x is None or (isinstance(x, int) and not isinstance(x, bool) and abs(x) < 10 ** 400) or (isinstance(x, str) and len(x) < 3000)
+             or (isinstance(x, float) and math.isfinite(x)) for x in case)
     return list(case) if ok else None
 
 
 def path_of(fmt, mn, mx, st, val):
     if fmt == "bool":
         return "bool"
-    v = stepgrid.reading(val)
-    if v is None:
+    d = stepgrid.dec_reading(val)
+    if d is None:
         return "reject"
+    c = stepgrid.clamp_dec(d, mn, mx)
+    if c and c.adjusted() > stepgrid.LARGEST_EXPONENT:
+        return "too-big"
     if not st:
         return "nostep"
-    c = stepgrid.clamp(v, fr(mn), fr(mx))
-    if fmt != "float" and all(x.denominator == 1 for x in (c, fr(mn) if mn is not None else Fraction(0), fr(st))):
+    integral = lambda x: x == x.to_integral_value()          # noqa: E731
+    if fmt != "float" and all(integral(Decimal(x)) for x in (c, mn if mn is not None else 0, st)):
         return "int-exact"
     return "dec6"
 
@@ -828,10 +891,10 @@ def run(ctx):
             if idx % 5 == 0:
                 direct = impl.run(*case, direct=True)
                 if direct != got:
-                    add(f"{sname}:build_update-differs", f"build_update gives {got}, check_convert_value gives {direct} on {case!r}", True,
-                        stream=sname, case=repr(case), impl=got, direct=direct)
+                    add(f"{sname}:build_update-differs", f"build_update gives {got[:80]}, check_convert_value gives {direct[:80]} on {short(case, 300)}", True,
+                        stream=sname, case=short(case, 300), impl=got, direct=direct)
             orc = oracle(fmt, mn, mx, st, val, got)
-            crepr = dict(format=fmt, minValue=repr(mn), maxValue=repr(mx), minStep=repr(st), value=repr(val))
+            crepr = dict(format=fmt, minValue=repr(mn), maxValue=repr(mx), minStep=repr(st), value=short(val, 300))
             cj = json_case(case)
             if orc is not None:
                 add(orc[0], orc[1], True, stream=sname, case=crepr, case_json=cj, impl=got, model=m)
@@ -849,16 +912,15 @@ def run(ctx):
                     add(near[2][0], near[2][1], True, stream=sname, case=dict(crepr, value=repr(near[0])),
                         case_json=json_case((fmt, mn, mx, st, near[0])), impl=near[1])
                 else:
-                    add(f"{sname}:model-mismatch", f"implementation {got} != model {m} on {case!r}", False, stream=sname, case=crepr, case_json=cj,
+                    add(f"{sname}:model-mismatch", f"implementation {got[:80]} != model {m[:80]} on {short(case, 300)}", False, stream=sname, case=crepr, case_json=cj,
                         impl=got, model=m, broken="correspondence Model/Convert.v <-> check_convert_value")
             nontrivial = fmt == "bool" or mn is not None or mx is not None or bool(st) or got.startswith("err")
-            cov.case(repr(case), nontrivial,
+            cov.case(short(case, 10 ** 9), nontrivial,
                      sample=dict(stream=sname, **crepr, impl=got) if idx % 4999 == 7 else None,
                      stream=sname, format=fmt, path=path_of(*case), result=got.split(" ")[0] + (" " + got.split(" ")[1] if got.startswith("ok") else ""),
                      value_type=type(val).__name__,
                      bounds=("min" if mn is not None else "-") + ("max" if mx is not None else "-") + ("step" if st else "-"),
-                     magnitude=("n/a" if stepgrid.reading(val) is None or fmt == "bool" else
-                                "<1e6" if abs(stepgrid.reading(val)) < 10 ** 6 else "<2^32" if abs(stepgrid.reading(val)) < 2 ** 32 else ">=2^32"))
+                     magnitude=magnitude_of(fmt, val))
     # ---- the decimal operations one by one
     ops = gen_ops(tier, rng(seed, "c14ops")) if replay_case is None else []
     oplines = [f"op {n} {p} {md} {dtok(a)}" + ("" if n in ("fix", "toint", "int") else " " + dtok(b)) for n, p, md, a, b in ops]
